@@ -157,6 +157,29 @@ def run(ctx, B):
             V("%s|Bragg|%s|%s" % (tag, c["name"], "no-reflection" if none[j] else "law"), "Bragg_angle(%s,%r,%r) = %r err=%s; lambda = %r, 2d = %r" % (
                 c["name"], float(Eb[j]), tuple(hb[j]), float(bv[j]), bool(be[j]), float(lam[j]), float(2 * ds[I][j])),
                 [dict(fn="Bragg_angle", args=[int(ci), float(Eb[j])] + [int(x) for x in hb[j]])])
+        # ---- the boundary wavelength = 2d, bit for bit: a reflection exists there (theta = pi/2); one double further (lambda > 2d) it does not
+        ud, ui = np.unique(ds, return_index=True)
+        cand_E, cand_i = [], []
+        for d_, i_ in zip(ud, ui):
+            e0 = KEV2ANGST / (2.0 * d_)
+            es = [e0]; up = dn = e0
+            for _ in range(6):
+                up = np.nextafter(up, np.inf); dn = np.nextafter(dn, -np.inf); es += [up, dn]
+            cand_E += es; cand_i += [i_] * len(es)
+        cand_E = np.array(cand_E); cand_i = np.array(cand_i)
+        hb2 = Hs[cand_i]
+        b2 = X.call("Bragg_angle", np.full(len(cand_E), ci), cand_E, hb2[:, 0], hb2[:, 1], hb2[:, 2])
+        ctx.add(evaluations=len(cand_E))
+        lam2 = KEV2ANGST / cand_E; two_d = 2.0 * ds[cand_i]
+        e2 = (b2["flags"] & F_ERR) != 0
+        with np.errstate(all="ignore"):
+            ok2 = np.where(lam2 > two_d, e2 & (b2["v0"] == 0), (~e2) & (np.abs(two_d * np.sin(b2["v0"]) - lam2) <= 1e-12 * lam2))
+        nt += int((lam2 == two_d).sum())
+        for j in np.nonzero(~ok2)[0][:5]:
+            V("%s|Bragg|%s|%s" % (tag, c["name"], "boundary-lambda=2d" if lam2[j] == two_d[j] else "boundary-neighbour"), "Bragg_angle(%s,%r,%r) = %r err=%s; lambda = %r, 2d = %r (%s)" % (
+                c["name"], float(cand_E[j]), tuple(hb2[j]), float(b2["v0"][j]), bool(e2[j]), float(lam2[j]), float(two_d[j]),
+                "lambda equals 2d: the reflection exists, theta = pi/2" if lam2[j] == two_d[j] else "lambda > 2d: no reflection" if lam2[j] > two_d[j] else "lambda < 2d: reflection exists"),
+                [dict(fn="Bragg_angle", args=[int(ci), float(cand_E[j])] + [int(x) for x in hb2[j]])])
         # ---- structure factors on a reduced Miller set
         Hm = np.array([h for h in itertools.product(np.arange(-2, 3) if quick else np.arange(-3, 4), repeat=3)])
         DW = np.array([1.0, 0.8]); REL = np.array([1.0, 0.5])
